@@ -800,7 +800,7 @@ fn write_ft_log(path: &str) -> Vec<Vec<u8>> {
     };
     let flfi = |serial: u32| mk(3, &[(DLT_TYPE_INFO_STRG, b"FLFI\0"), (u32t, &serial.to_le_bytes()), (DLT_TYPE_INFO_STRG, b"FLFI\0")]);
     let plain = |i: usize| {
-        let g = GenMsg { ecu: "ECU1".into(), apid: "APIA".into(), ctid: "CTIA".into(), t_ms: 0, mcnt: 0, text: format!("ordinary message {}", i) };
+        let g = GenMsg { ecu: "ECU1".into(), apid: "APIA".into(), ctid: "CTIA".into(), t_ms: 0, mcnt: 0, text: format!("ordinary message {}", i), ts_dms: 0 };
         to_dlt(i, &g)
     };
     let a: Vec<u8> = (0..1200u32).map(|i| (i * 7 % 251) as u8).collect();
